@@ -110,7 +110,8 @@ def rule_split_table(ctx):
 def _is_arrow_parser(f, e, depth=0):
     """does the parser expression `e` (a call `p(c)`'s callee, or an inline `seq([..])`) recognise exactly a joint `-` followed by `>`?"""
     txt = A.render(e)
-    if re.fullmatch(r"seq\(\[&mut punct_with_spacing\('-',Spacing::Joint\),&mut punct(_with_spacing)?\('>'(,Spacing::\w+)?\)\]\)", txt):
+    # the `>` of `->` is Joint whenever punctuation follows (`->&T`, `->!`, `->*const T`): its spacing must not be tested
+    if re.fullmatch(r"seq\(\[&mut punct_with_spacing\('-',Spacing::Joint\),&mut punct\('>'\)\]\)", txt):
         return True
     nm = A.path_str(e)
     if nm and "::" not in nm and depth < 2:
@@ -276,6 +277,23 @@ def rule_ident_argument(ctx):
     ctx.instance("ident-only")
     if "c.ident().filter(|(_,c)|c.eof()||punct(',')(*c).is_some())" not in t or t.count("Self::Ident(") != 1:
         ctx.report("split:ident-only", ctx.where(fn.file, fn.node), "`Expr::Ident` is no longer produced only for an argument consisting of a single identifier (followed by `,` or the end), found through `Cursor::ident()`", {})
+
+
+def rule_expr_ident_eq(ctx):
+    """IDENT-EQ: `Expr == Ident` (what decides whether a format argument *is* a given field: Pointer re-binding, transparent delegation on fields) compares the argument's identifier with the given one as written; normalisation (`unraw()`) is the caller's business and is done there on the field side - normalising inside the comparison as well makes an argument written `r#ref` equal to neither `r#ref` nor `ref`, and `{:p}` prints the address of the field instead of the stored pointer."""
+    fn = A.get_fn(ctx.files, PARSING, "<Expr as PartialEq<syn::Ident>>::eq")
+    ctx.instance("expr-eq-ident", sample=A.fn_text(fn)[:200])
+    allowed = {"ident", "is_some_and", "map_or", "map", "unwrap_or", "as_ref", "eq", "is_some", "then", "then_some"}
+    extra = sorted({mc["method"]["sym"] for mc, _ in A.find(fn.block, "Expr::MethodCall")} - allowed)
+    calls = sorted({A.path_str(c["func"]) or "?" for c, _ in A.find(fn.block, "Expr::Call")} - {"Some"})
+    if extra or calls:
+        ctx.report(
+            "expr-eq-ident:normalised",
+            ctx.where(fn.file, fn.node),
+            f"`Expr == Ident` transforms an operand before comparing (`{', '.join(extra + calls)}`): together with the caller's `expr == *field || expr == field.unraw()` an argument written as a raw identifier "
+            "(`r#ref`) no longer equals its own field, so the Pointer re-binding / transparent delegation silently does not happen",
+            {"body": A.fn_text(fn)[:200]},
+        )
 
 
 def rule_stateless_combinators(ctx):
